@@ -1,5 +1,6 @@
 \* thorough facet with ids above 20: q = 23, n = 22, t <= 3, every committee that contains member 21 or 22
 \* (the interpolation identity over ALL 1540 + 231 + 22 committees), three sampled polynomials per threshold
+\* measured: 16,890 distinct / 2,496,372 generated states, 216 s (16 workers)
 CONSTANTS
   Q = 23
   NSet = {22}
